@@ -33,9 +33,13 @@ V4 == <<{<<0, 0, 65535, 65535>>, <<0, 1, 0, 0>>, <<65535, 65535, 65535, 65535>>}
 T5 == [be |-> 0, areas |-> <<A(1, 3, 0, 1, 0, 1, 0), A(4, 2, 1, 1, 0, 1, 0)>>,
        regs |-> <<R(0, 1, 3, <<0>>, <<100>>, <<42>>), R(0, 3, 0, <<0>>, <<0>>, <<7>>), R(1, 4, 0, <<0, 0>>, <<0, 0>>, <<1, 2>>)>>]
 V5 == <<{<<100>>, <<101>>}, {<<65535>>}, {<<3, 4>>}>>
-Tables == <<T1, T2, T3, T4, T5>>
-Vals == <<V1, V2, V3, V4, V5>>
-Word2 == <<10, 3, 16416, 5, 9>>      \* one more word per table for the longer blocks
+(* T6 big-endian: two registers in a two-word area, directly followed by a writable area without registers *)
+T6 == [be |-> 1, areas |-> <<A(0, 2, 1, 1, 0, 1, 0), A(2, 1, 1, 1, 0, 1, 0)>>,
+       regs |-> <<R(0, 0, 0, <<0>>, <<0>>, <<1>>), R(0, 1, 4, <<0>>, <<10>>, <<5>>)>>]
+V6 == <<{<<7>>}, {<<10>>, <<11>>}>>
+Tables == <<T1, T2, T3, T4, T5, T6>>
+Vals == <<V1, V2, V3, V4, V5, V6>>
+Word2 == <<10, 3, 16416, 5, 9, 999>>      \* one more word per table for the longer blocks
 Which == CHOOSE i \in 1..Len(Tables) : Tables[i] = d
 WordsOf(i) == UNION {{v[k] : k \in 1..Len(v)} : v \in UNION {Vals[i][j] : j \in 1..Len(Vals[i])}} \cup {0, 65535}
 Window(t) == MaxOf(0, t.areas[1].base - 1)..(AEnd(t.areas[NA(t)]))
